@@ -39,6 +39,23 @@ CHECKS = {
             "Conflict shape x content pair x 10 resolver behaviours, both user operations first, then every interleaving of "
             "engine steps: outcome table of the statement, resolver call count and arguments, and a singleton terminal "
             "observation per job (schedule independence).", NOTE_E1, "5/C05"),
+    "C06": ("seqx", "exhaustive enumeration of stop points x restart modes on explored executions of the real engine",
+            "For every step boundary of every base execution (prompt and users-first schedules of one-sided and disjoint "
+            "histories on a DictStorage) the engine is dropped, the users finish their scripts while it is down, and a new engine "
+            "is started over the same storage in three modes (intact, cursor removed, cursor rejected); after quiescence: "
+            "convergence, no loss, no new artefact, no spurious transfer (intact) / every created or modified object present on "
+            "both sides (cursor lost). Judged only when the undisturbed run passes (differential gating).",
+            NOTE_E1, "5/C06"),
+    "C07": ("seqx", "exhaustive crash-point enumeration (every storage write, every engine provider write) on explored executions",
+            "Within every base execution each storage create/update/delete is taken as a crash instant (die before it) and each "
+            "effective engine provider write as a crash instant (die right after it); writes after death are refused; a new engine "
+            "restarts over the storage and provider contents of that instant: convergence, no loss, no artefact for one-sided "
+            "histories.", NOTE_E1 + " A crash is 'process disappears between two calls'; torn rows are SQLite's contract.", "5/C07"),
+    "C10": ("seqx", "exhaustive fault-placement enumeration (every engine API call x 4 error kinds, before/after effect)",
+            "Every provider API call the engine makes in a base execution is failed once with a temporary, disconnected, token or "
+            "out-of-space error before its effect, every mutating call also right after its effect; plus permanent per-path "
+            "failures lifted after 0..8 rounds. Afterwards the run must go quiet, converge without loss and have raised the "
+            "matching notification.", NOTE_E1, "5/C10"),
     "C08": ("seqx+enumx", TECH_E1 + " with a persistence monitor; " + TECH_E4 + " for the codec",
             "After every engine transition of every interleaving of the C01 history list (storage attached) the stored rows "
             "must equal the live entries byte for byte, with no stale row and an empty dirty set, and a SyncState reloaded "
